@@ -36,6 +36,10 @@ BAD = [r"\bAdmitted\b", r"\badmit\b", r"\bAxiom\b", r"\bAxioms\b", r"\bParameter
 
 def main():
     files = sorted(glob.glob(os.path.join(ROOT, "coq", "**", "*.v"), recursive=True))
+    if len(sys.argv) > 2 and sys.argv[1] == "--only":
+        # per-property mode: shared files plus this property's own files
+        pid = sys.argv[2]
+        files = [f for f in files if not re.match(r"C\d+_", os.path.basename(f)) or os.path.basename(f).startswith(pid + "_")]
     bad = 0
     for f in files:
         src = strip_comments(open(f).read())
